@@ -15,6 +15,9 @@ CLAIMED = {
  "C06": ("§6 C06", "Every non-in-place DataFrame/Vector method family is re-run with the oracle 'operands cell-for-cell identical after the call (all cell values symbolic) and no result buffer is an operand buffer' (buffer identity in the model, np.shares_memory on each replayed witness)."),
  "C09": ("§6 C09", "rbind/cbind/update/modify/select/unselect/rename/colnames against a list-of-columns reference for ALL cell values and all choices of column subsets, orders, rename maps (incl. permutations) within the bounds."),
  "C11": ("§6 C11", "Vector.sort/rank/unique against the statement's counting definitions for ALL element values of each dtype, lengths 0..3 (quick) / 0..4 (thorough), both directions, all three rank methods."),
+ "C15": ("§6 C15", "Every listed ListOfDicts method against the same operation on plain Python lists/dicts (identity tags, per-key values) for ALL item values, predicate outcomes, n / index / multiplier values and all ragged-key / None patterns within the bounds."),
+ "C16": ("§6 C16", "The five ListOfDicts joins against a nested-loop first-match reference (None keys, renamed keys, overlapping payload keys) and aggregate against the partition into key classes, for ALL key/payload values within the bounds."),
+ "C17": ("§6 C17", "Isolation: item contents identical after every non-modifying method and for every join's right-hand argument, deepcopy independence, for ALL item values. Obsolescence: all derivation histories of depth <= 2 (quick) / 3 (thorough) followed by one editing method and two uses of every node: obsolete flag and warn-once behaviour equal the ancestor oracle; outside the recorded known-finding region."),
  "C05": ("§6 C05", "For every pair of frames within the bounds and ALL key and payload cells, the five joins agree with a nested-loop first-match reference (missing keys never match, renamed keys, empty sides) and do not raise."),
 }
 m = {"version": 1, "setup_cmd": "./bootstrap.sh",
